@@ -45,6 +45,15 @@ func runC10(ctx *Ctx) {
 		}
 	}
 	ops = append(ops, c10op{1, 3, 1}, c10op{2, 4, 1}, c10op{0, 0, 0}, c10op{3, 2, 1}, c10op{4, 2, 1}, c10op{5, 2, 1}, c10op{5, 1, 255})
+	// long downlink messages (DL NAS TRANSPORT with a payload container of n octets): histories of one and three messages only
+	shortOps := len(ops)
+	for _, n := range []int{245, 249, 250, 251, 300, 1015, 1019, 1100, 4000} {
+		m := append([]byte{0x7e, 0x00, 0x68, 0x01, byte(n >> 8), byte(n)}, pattern(2, n)...)
+		msgs = append(msgs, m)
+		for _, h := range []uint8{1, 2} {
+			ops = append(ops, c10op{len(msgs) - 1, h, 1})
+		}
+	}
 	depthAES, depthSnow := 3, 3
 	if ctx.Thorough {
 		depthAES, depthSnow = 4, 3
@@ -54,7 +63,7 @@ func runC10(ctx *Ctx) {
 	for _, m := range msgs {
 		lens = append(lens, len(m))
 	}
-	r.Rule = fmt.Sprintf("the AMF side (independent refnas/refcrypto) protects every downlink history of length <=%d (<=%d for pairs using SNOW 3G) over %d operations (plain message of %v octets x header type {0 plain,1,2,3 new context,4 new context} x COUNT step {+1,+2,+200,+255 (skipped sequence numbers, wraps)}) x 6 algorithm pairs x starting DL COUNT %v; plus linear runs of 800 messages (3 SQN wraps), through NASDecode and through GetNasPdu on a DownlinkNASTransport; "+
+	r.Rule = fmt.Sprintf("the AMF side (independent refnas/refcrypto) protects every downlink history of length <=%d (<=%d for pairs using SNOW 3G) over %d operations (plain message of %v octets x header type {0 plain,1,2,3 new context,4 new context} x COUNT step {+1,+2,+200,+255 (skipped sequence numbers, wraps)}) x 6 algorithm pairs x starting DL COUNT %v; plus one- and three-message histories with payload containers of 245..4000 octets (messages around the 256- and 1024-octet marks), linear runs of 800 messages (3 SQN wraps), through NASDecode and through GetNasPdu on a DownlinkNASTransport; "+
 		"oracle: returned message re-encodes to exactly the plain bytes the AMF protected, UE DL COUNT == the AMF's COUNT for that message (overflow +1 on wrap, 0 after a new-context header); non-trivial = history length >= 2", depthAES, depthSnow, len(ops), lens, starts)
 	r.Assume("downlink plain messages are hand-encoded from TS 24.501 clause 8 tables", "the UE and the AMF start from the same COUNT (as after a security mode procedure)")
 	if !ctx.IsChild() {
@@ -82,11 +91,20 @@ func runC10(ctx *Ctx) {
 				if len(seq) == depth {
 					return
 				}
-				for i := range ops {
+				for i := 0; i < shortOps; i++ {
 					rec(append(seq, i))
 				}
 			}
 			rec(nil)
+		}
+		for li := shortOps; li < len(ops); li++ {
+			for _, start := range []uint32{0, 0xfe} {
+				item++
+				if ctx.Mine(item) {
+					c10history(r, l, msgs, ops, alg, kint, kenc, start, []int{li}, false)
+					c10history(r, l, msgs, ops, alg, kint, kenc, start, []int{1, li, 4}, true)
+				}
+			}
 		}
 		item++
 		if ctx.Mine(item) {
